@@ -203,6 +203,41 @@ def replay_two_paths(sc):
     return bool(bad), "dX = 2 dY, x0 = 1.5, driver jumps to 0.1 then 0.3: " + "; ".join(bad)
 
 
+def replay_integer_x0(sc):
+    """real MarkovChainSDE step on a scripted driver path with an integer initial state (x0 = 100, or an int array)"""
+    out = []
+    kinds = (100, np.array([3]))
+    for x0 in (kinds if sc.get("which") is None else (kinds[sc["which"]],)):
+        model = LSDE.LevyDrivenSDEModel(driver=StubDriver(1), x0=x0, a=LSDE.Constant(m=1, d=1, constant=0.5))
+        proc = MSDE.MarkovChainSDE.__new__(MSDE.MarkovChainSDE)
+        proc.model = model
+        proc.process_representation = ProcessRepresentation.IDENDITY
+        path = PATH.StochasticJumpPath(np.array([0.0, 0.5, 1.0]), np.array([0.0, 0.1, 0.3]), np.array([0.0, 0.0, -0.2]))
+        proc.markov_chain = StubChain(path, 0.05)
+        try:
+            v = np.asarray(proc.simulate_one_path().value(), dtype=float)
+        except Exception as e:
+            out.append(f"x0 = {x0!r}: simulate_one_path raises {type(e).__name__}: {str(e)[:120]}")
+            continue
+        want = 0.5 * (0.05 * 1.0 + 0.3 - 0.2)
+        if abs(float(np.ravel(v)[-1]) - want) > 1e-12:
+            out.append(f"x0 = {x0!r}: X_T - x0 = {float(np.ravel(v)[-1])!r}, a * Y_T = {want!r}")
+    return bool(out), "; ".join(out) if out else "integer initial states are simulated like their float values"
+
+
+def h_integer_x0(ctx):
+    """the initial state given as integers (x0 = 100 is a natural way to write a spot; the state array is updated in place): the scheme runs
+    and gives the numbers of the float initial state.  Everything but the choice of x0 is concrete here (a float state array cannot hold
+    symbolic increments), so the real step runs on plain numbers"""
+    which = ctx.int("x0_kind", 0, 1).__index__()
+    V.set_context(None)
+    try:
+        ok, detail = replay_integer_x0({"which": which})
+    finally:
+        V.set_context(ctx)
+    ctx.prove("C16.integer_initial_state_is_simulated_like_its_float_value", not ok, info={"x0": ["100", "array([3])"][which], "detail": detail[:200]}, replay=(replay_integer_x0, lambda m: {"which": which}))
+
+
 def h_single(ctx, m, d, n, coef):
     model, x0, a = make_model(ctx, m, d, coef)
     x0_given = [x for x in x0]
@@ -555,6 +590,7 @@ def harnesses(tier):
                 continue
             for n in ((1, 2) if q else (1, 2, 3)):
                 hs.append(Harness(f"single.{coef}.{m}x{d}.n{n}", h_single, {"m": m, "d": d, "n": n, "coef": coef}, max_paths=2000))
+    hs.append(Harness("single.integer_x0", h_integer_x0, max_paths=20))
     hs.append(Harness("single.time.1x1.n2", h_single, {"m": 1, "d": 1, "n": 2, "coef": "time"}, max_paths=2000))
     hs.append(Harness("coupled.time.n2", h_coupled, {"m": 1, "n": 2, "coef": "time"}, max_paths=2000))
     hs.append(Harness("single.affine.2x1.n2", h_single, {"m": 2, "d": 1, "n": 2, "coef": "affine"}, max_paths=2000))
